@@ -8,7 +8,7 @@ import ast
 
 from .. import astutil as A
 from ..fa import FA
-from .valeq import check_typed_identity
+from .valeq import check_typed_identity, check_json_bytes, check_enum_distinct
 from .c16 import sibling_reference_sites
 from .ladders import extract_ladder, check_ladder_order, repo_subclass_pairs, handler_ladder
 from . import partition_model as PM
@@ -347,3 +347,8 @@ def check(ck):
     sibling_reference_sites(ck, "C02.R5")
     check_frame_rule(ck, "C02.R6")
     check_typed_identity(ck, "C02.R7", ("storage_base", "metadata", "runner_local", "runner"))
+    check_enum_distinct(ck, "C02.R1")
+    check_json_bytes(ck, "C02.R4", ["storage_base.DefaultCodec.JsonExceptionStrategy.encode", "storage_base.DataSourceMetadataSource.put_memento",
+                                     "storage_base.DefaultCodec.PicklePartition._serialize_index"])
+    from .c15 import check_slots
+    check_slots(ck, "C02.R8")
